@@ -83,3 +83,28 @@ def precedes(e1, e2):
         if nf not in e2.facts and not G.entails(e2.facts, nf) if nf[0] == "cmp" else nf not in e2.facts:
             return False
     return bool(e1.own)
+
+
+# ---- canonical forms after INLINE/THREAD: every Option/Result test is a discriminant test of the scrutinee term --------
+def is_discr_fact(f, scrut, idx, nvariants=2):
+    """fact `scrut is variant idx` (N-form); for two-variant enums `discr != other` is the same fact"""
+    f = G.N(f)
+    if f == ("cmp", "Eq", ("discr", scrut), ("c", idx)):
+        return True
+    if nvariants == 2 and f == ("cmp", "Ne", ("discr", scrut), ("c", 1 - idx)):
+        return True
+    return False
+
+
+def guarded_by_variant(facts, scrut, idx, nvariants=2):
+    return any(is_discr_fact(f, scrut, idx, nvariants) for f in facts)
+
+
+def payload_of(scrut, idx, field=0):
+    """N-form of `(scrut as Variant#idx).field`"""
+    return ("fld", ("dc", scrut, idx), field)
+
+
+def own_is_variant(e, scrut, idx, nvariants=2):
+    """the exit's own (nearest) guard is exactly the test `scrut is variant idx`"""
+    return len(e.own) == 1 and is_discr_fact(e.own[0], scrut, idx, nvariants)
